@@ -29,7 +29,7 @@ INTLISTS = [[], [1], [1, 2], [2, 1, 2], [0, -1, 5, 5], [3, 101, 3], [-2, 0, 2, -
 STRLISTS = [[], ["a"], ["a", "b"], ["b", "a", "b"], ["x-y", "z"], ["-a", "a", "-*", "b"], ["q", "zz", "q"]]
 CASES = {
     "s_concat_slice": ("str str", None), "s_prefix_suffix": ("str str", None), "s_strip": ("str", None), "s_case_digit": ("str", None),
-    "s_split_join": ("str", None), "s_partition": ("str", None), "s_replace_first": ("str", None), "s_find_index": ("str", None),
+    "s_split_join": ("str", None), "s_partition": ("str", None), "s_replace_first": ("str", None), "s_replace_all": ("str", None), "s_find_index": ("str", None),
     "s_int_text": ("str", None), "s_format": ("str int", None), "s_lower_concrete_pieces": ("str", None),
     "s_index_chars": ("str", None), "s_compare_chain": ("int int int", None),
     "i_arith": ("int int", None), "i_minmax": ("int int int", None), "i_bits": ("mode", [(m,) for m in (0, 1, 0o644, 0o755, 0o4755, 0o2777, 0o100644)]),
